@@ -167,10 +167,8 @@ def gen_line(rng, pool, ctx=None, stable_only=False):
                 ops.append(f"copy {o} {b}")
                 approx[o] |= approx[b]
             elif x < 0.98:
-                # a map is never == to a record (different classes): compare within one family
-                fam = lambda t: t in ("r", "nr")
-                cand = [i for i, t in enumerate(impl_of) if fam(t) == fam(impl)]
-                ops.append(f"eq {o} {rng.choice(cand)}")
+                # (a map is never == to a record, in either direction: oracle and model know the families)
+                ops.append(f"eq {o} {rng.randrange(len(impl_of))}")
             elif x < 0.99:
                 ops.append(f"items {o}")
             else:
@@ -280,6 +278,8 @@ def oracle(line, ans):
     if len(got) != len(ops):
         return f"{len(got)} answers for {len(ops)} operations"
     objs = []     # python dicts: key class id (as 'k<id>') -> value string
+    impl = []     # implementation tag per object (a map is never == to a record: different classes)
+    is_rec = lambda t: t in ("r", "nr")
 
     def K(tok):
         return "k" + tok.split("/")[0]
@@ -299,6 +299,7 @@ def oracle(line, ans):
             return f"{where}: unexpected error {res}"
         if name == "new":
             objs.append({}); want = f"o:{len(objs) - 1}"
+            impl.append(p[0].split(":")[1] if ":" in p[0] else "m")
         elif name in ("set",):
             target = int(a[0]); objs[target][K(a[1])] = a[2]; want = "-"
         elif name == "add":
@@ -320,16 +321,22 @@ def oracle(line, ans):
             target = int(a[0]); want = "-"
         elif name in ("clone", "clonecap"):
             objs.append(dict(objs[int(a[0])])); want = f"o:{len(objs) - 1}"
+            impl.append(impl[int(a[0])])
         elif name in ("cat", "union"):
             d = dict(objs[int(a[0])]); d.update(objs[int(a[1])])
             objs.append(d); want = f"o:{len(objs) - 1}"
+            ia, ib = impl[int(a[0])], impl[int(a[1])]
+            # record + record is a record; a Go-map backed record + a map is a map (explicit case in ConcatVal)
+            impl.append(ia if ia == ib else ("m" if (not is_rec(ia) or (ia == "nr" and not is_rec(ib))) else "r"))
         elif name == "inter":
             x, y = objs[int(a[0])], objs[int(a[1])]
             objs.append({k: "0" for k in x if k in y}); want = f"o:{len(objs) - 1}"
+            impl.append(impl[int(a[0])])
         elif name == "copy":
             target = int(a[0]); objs[target].update(objs[int(a[1])]); want = "-"
         elif name == "eq":
-            want = "b:true" if objs[int(a[0])] == objs[int(a[1])] else "b:false"
+            same_family = is_rec(impl[int(a[0])]) == is_rec(impl[int(a[1])])
+            want = "b:true" if same_family and objs[int(a[0])] == objs[int(a[1])] else "b:false"
         elif name == "seq":
             want = "b:true" if set(objs[int(a[0])]) == set(objs[int(a[1])]) else "b:false"
         elif name in ("items", "iter"):
